@@ -456,6 +456,21 @@ func TestC17(t *testing.T) {
 			"digest": func(t *rapid.T) {
 				idx := idxGen.Draw(t, "idx")
 				d := s.Bytes(lenGen.Draw(t, "len"))
+				if len(d) == 48 {
+					// digests that mean something: SHA-384 of nothing, of one zero byte, all zero, all ones - a digest is a digest
+					switch rapid.IntRange(0, 11).Draw(t, "specialDigest") {
+					case 0:
+						e := sha512.Sum384(nil)
+						d = e[:]
+					case 1:
+						e := sha512.Sum384([]byte{0})
+						d = e[:]
+					case 2:
+						d = make([]byte, 48)
+					case 3:
+						d = bytes.Repeat([]byte{0xff}, 48)
+					}
+				}
 				valid := idx >= 0 && idx <= 3 && len(d) == 48
 				cl := pickClient(t)
 				step(fmt.Sprintf("ExtendDigestClient(%d, %d bytes)", idx, len(d)), idx, d, valid, func() error { return rtmr.ExtendDigestClient(cl, idx, d) })
